@@ -315,7 +315,20 @@ func (th *Thread) ufBytes(name string, outLen int, in []*Term) []Value {
 }
 
 // resolveFunc parses "pkg.Func", "(*pkg.T).M", "(pkg.T).M" with optional module-relative package paths.
+var resolveCache sync.Map
+
 func (e *Engine) resolveFunc(target string) *ssa.Function {
+	if v, ok := resolveCache.Load(target); ok {
+		return v.(*ssa.Function)
+	}
+	f := e.resolveFuncSlow(target)
+	if f != nil {
+		resolveCache.Store(target, f)
+	}
+	return f
+}
+
+func (e *Engine) resolveFuncSlow(target string) *ssa.Function {
 	expand := func(p string) string {
 		if strings.HasPrefix(p, "internal/") || strings.HasPrefix(p, "cmd/") {
 			return modPath + "/" + p
@@ -543,6 +556,10 @@ func isErrorType(t types.Type) bool {
 
 // newError builds an *errors.errorString value.
 func (th *Thread) newError(msg string) Value {
+	return th.newErrorV(strConst(th.ctx(), msg))
+}
+
+func (th *Thread) newErrorV(msg *StrV) Value {
 	e := th.p.eng
 	var epkg *ssa.Package
 	for _, p := range e.prog.AllPackages() {
@@ -555,7 +572,7 @@ func (th *Thread) newError(msg string) Value {
 		panic(engineErr("package errors not loaded"))
 	}
 	tn := epkg.Type("errorString")
-	sv := &StructV{F: []Value{strConst(th.ctx(), msg)}}
+	sv := &StructV{F: []Value{msg}}
 	o := th.p.newObj(sv, "error")
 	return &IfaceV{T: types.NewPointer(tn.Type()), V: &PtrV{O: o}}
 }
